@@ -29,7 +29,7 @@ def register(R):
                    ensures=[('C03.priority-is-own-or-standard', lambda c: i_of(c.rt) == S.prio(c.pre, c.ref('self')))]))
     R.add(Contract(N + 'ConfigNode.ayns.delete', [node()], requires=_valid('self'), pure=True,
                    result=P.val('result', 'bool'),
-                   ensures=[('C04.delete-explicit-then-inherited-then-type-default',
+                   ensures=[('C04+C13.delete-explicit-then-inherited-then-type-default',
                              lambda c: b_of(c.rt) == S.delete_eff(c.eng, c.pre, c.ref('self')))]))
     R.add(Contract(N + 'ConfigNode.ayns.allow_new', [node()], requires=_valid('self'), pure=True,
                    result=P.val('result', 'bool'),
